@@ -887,6 +887,15 @@ class Interp:
             if base == "Div" and bl > 0 and al >= 0:
                 if b.aff.is_const() and a.aff.is_const():
                     return IntV(Aff.const(a.aff.c // b.aff.c), it)
+                # exact division of a tracked product by one of its factors
+                sg = a.aff.single()
+                if sg is not None and sg[1] == 1 and sg[2] == 0:
+                    inf = self.syminfo.get(sg[0])
+                    if inf and inf[0] == "mul" and len(inf) >= 3:
+                        if inf[2] == b.aff:
+                            return IntV(inf[1], it)
+                        if inf[1] == b.aff:
+                            return IntV(inf[2], it)
                 r = self.fresh_int(st, "div", it, al // bh if bh < INF else 0, ah // bl if ah < INF else None)
                 if b.aff.is_const():
                     # q*b <= a < q*b + b
